@@ -112,7 +112,10 @@ def run(rng, tier, model_ok):
             queries.append((q % u, False))
             queries.append((q % u, True))
     # diagnostics are placed on the text as typed: blanks before and after the query, several expressions of which some fail
-    for e in ["1/0", "(1 m + 1 s) (2 m)", "(2 m) (1 m to s) (7)", "nosuchfact * 2", "1 m + 1 s", "round(1, 2, 3)", "(1/0) (2/0)", "2 ^ 0.5"]:
+    for e in ["1/0", "(1 m + 1 s) (2 m)", "(2 m) (1 m to s) (7)", "nosuchfact * 2", "1 m + 1 s", "round(1, 2, 3)", "(1/0) (2/0)", "2 ^ 0.5",
+              # phrases the search index's own query syntax refuses (a bare operator word): an evaluation error like any other
+              "(1) OR (2 decades)", "(3 km) NOT x (4/8)", "(7) mass of earth OR (15 years to decades)", "AND (2)", "(1) OR", "(2 m) AND NOT (3 s) (4)",
+              "(1) a OR (2) b AND (3)"]:
         for lead in ["", " ", "   ", "     "]:
             for trail in ["", "  "]:
                 queries.append((lead + e + trail, False))
